@@ -28,7 +28,8 @@ type H2Action struct {
 
 type H2Script struct {
 	Status   int
-	Fields   []Field // regular response fields (content-length included when declared)
+	Interim  [][]Field // interim (1xx) header blocks written before the final one, each with its :status
+	Fields   []Field   // regular response fields (content-length included when declared)
 	HdrEnd   bool    // END_STREAM already on HEADERS
 	Actions  []H2Action
 	Trailers []Field
@@ -223,6 +224,10 @@ func (s *H2Server) serve(c net.Conn, connID int64) {
 func (s *H2Server) play(h *h2conn, sid uint32, sc *H2Script) (end bool) {
 	if sc.Status < 0 { // connection ends before any response HEADERS
 		return true
+	}
+	for _, blk := range sc.Interim {
+		h.writeHeaders(sid, blk, false)
+		h.flush()
 	}
 	fields := append([]Field{{":status", fmt.Sprint(sc.Status)}}, sc.Fields...)
 	h.writeHeaders(sid, fields, sc.HdrEnd)
